@@ -78,7 +78,7 @@ def incremental_chunked(orig: set[str], iterables):
             orig.clear()
         for flag in cinst.neg:
             if flag.endswith("_*"):  # remove previous USE_EXPAND
-                drop = [f for f in orig if f.startswith(flag[:-2])]
+                drop = [f for f in orig if f.startswith(flag[:-1])]
                 orig.difference_update(drop)
         orig.difference_update(cinst.neg)
         orig.update(cinst.pos)
